@@ -1143,6 +1143,29 @@ def C19(tier, seed):
             scens = scens[:limit]
             for i, v in enumerate(scens):
                 v["sc"] = i + 1
+        # failures that the environment causes (nothing is injected): a directory occupies the name the next rotated file
+        # would get, so that the rename fails for another reason than "not found"; later the obstacle goes away
+        nobst = 40 if tier == "quick" else 800
+        for i in range(nobst):
+            c = {"naming": "Num", "rot": True, "size": rng.choice([10, 30, 60]), "mode": ["direct", "direct", "buf"][i % 3], "cap": 64,
+                 "crlf": False, "append": False, "link": i % 4 == 0}
+            idx = rng.choice([0, 0, 1, 2])
+            steps = [{"op": "Start", "append": i % 5 == 4}]
+            for _ in range(idx * 2):                             # rotations before the obstacle is reached
+                steps += [{"op": "Log", "len": rng.choice([12, 21, 40])}, {"op": "Trigger"}] if rng.random() < 0.5 else \
+                         [{"op": "Log", "len": c["size"] + 9}]
+            steps.insert(1, {"op": "ExtCreate", "name": f"app_r{idx:05d}.log", "dir": True, "content": ""})
+            steps += [{"op": "Log", "len": rng.choice([9, 12, 21, 40])} for _ in range(rng.choice([4, 7, 10]))]
+            if i % 3 != 2:
+                steps.append({"op": "ExtRemove", "which": f"app_r{idx:05d}.log"})
+                steps += [{"op": "Log", "len": rng.choice([9, 12, 21, 40])} for _ in range(rng.choice([3, 6]))]
+            if i % 7 == 3 and i % 3 != 2:
+                # (a restart while the obstacle is still there cannot open its file: those records are lost with a report,
+                # which the monitor can tell for injected failures only)
+                steps += [{"op": "Stop"}, {"op": "Start", "append": i % 2 == 0}, {"op": "Log", "len": 12}, {"op": "Log", "len": 21}]
+            steps.append({"op": "Stop"})
+            scens.append({"sc": len(scens) + 1, "cfg": c, "t0": 1000, "steps": steps, "origin": "obstacle", "points": False,
+                          "obs": "every", "tag": {"k": 0, "burst": 0, "base": 0, "obstacle": True}, "conf": False, "fxrec": False})
         res = C.run_sharded(pid, "MonC19", scens, wd)
         cf = C.conform(res["traces"], wd, module="TraceFlwFMC.tla", cfg="TraceFlwF.cfg")
         C.log(f"[C19] conform mode with faults (TraceFlwF.tla): {cf['scenarios']} fault runs / {cf['events']} events checked "
@@ -1153,7 +1176,8 @@ def C19(tier, seed):
                   f"follows the detailed model of the error handling there (no property verdict; the monitor decides)")
         allbads = rec["bads"] + res["bads"]
         C.log(f"[C19] {len(base)} histories with {sum(hits.values())} file-system effects ({ptnames}); {res['scenarios']} fault "
-              f"runs (every effect index x bursts {bursts}) / {res['events']} events; judged by MonC19.tla in {res['wall_s']}s; "
+              f"runs (every effect index x bursts {bursts}; {nobst} of them with an obstacle in the directory instead of an "
+              f"injected failure) / {res['events']} events; judged by MonC19.tla in {res['wall_s']}s; "
               f"{len(allbads)} predicate failures; counters {res['counts']}")
         def _facts_c19(begin, ev, sl, pred):
             """a rotation whose rename succeeded and whose open failed (the writer goes on with the renamed file): an
